@@ -22,7 +22,9 @@ RULE = ("the full decision table skipped x rate {0, 1/4, 1/2, float(0.1), 1, 3/2
         "follows the rule on the tapped draw and cassettes with the same history decide the same; seeded real-Random histories run twice and as content/outcome-varied twins, "
         "for an ordinary seed and for every kind of value Random accepts (0, 0.0, '', b'', False, True, negative, 2**40, 2**64+1, "
         "text, bytes; two classes with different fractional rates), the decisions also compared with the documented rule applied "
-        "to the stream of random.Random(seed) itself; "
+        "to the stream of random.Random(seed) itself; the S3 cassettes are fed directly or THROUGH a real TapeRecorder whose "
+        "operations return / raise / are interrupted, also with a calculated rate of 0 for every size: every save consults "
+        "the calculator once; "
         "non-trivial = a row where the draw decides or a force/discard interacts; distinct = distinct case")
 ASSUMPTIONS = ["the Mersenne Twister is an oracle stream; uniformity is assumed, the kept fraction over a seeded history is "
                "reported as an observation only",
@@ -313,7 +315,8 @@ MANIFEST = dict(
          "and histories of several cassettes in one process with their own generators (tapped draws). Direct predicate: harness-side "
          "re-statement of the policy incl. draws consumed; seeded histories twice and as content/outcome-varied twins, over ordinary "
          "and edge seeds (0 and the other falsy values, negative, huge, text, bytes), and against the rule applied to "
-         "random.Random(seed) itself.",
+         "random.Random(seed) itself. The S3 cassettes are fed directly and through a real TapeRecorder around returning / "
+         "raising / interrupted operations.",
     note="Trusted: Coq kernel + vm_compute, hand-written model, correspondence harness, harness-side policy re-statement. The "
          "random generator is an oracle stream (uniformity assumed; kept fraction over seeded histories reported, never a "
          "violation by itself).",
